@@ -1401,8 +1401,9 @@ static void generate_hashmap_implementations(Environment *env, StringBuilder *sb
 
         const char *keys_elem = (strcmp(key, "string") == 0) ? "ELEM_STRING" : "ELEM_INT";
         const char *values_elem = (strcmp(val, "string") == 0) ? "ELEM_STRING" : "ELEM_INT";
-        const char *keys_push = (strcmp(key, "string") == 0) ? "string" : "int";
-        const char *values_push = (strcmp(val, "string") == 0) ? "string" : "int";
+        /* string keys/values are copied into the array: the map frees its own buffers on remove/clear/free */
+        const char *keys_push = (strcmp(key, "string") == 0) ? "string_copy" : "int";
+        const char *values_push = (strcmp(val, "string") == 0) ? "string_copy" : "int";
 
         const char *hash_fn = (strcmp(key, "string") == 0) ? "nl_hashmap_hash_string" : "nl_hashmap_hash_int";
         const char *eq_fn = (strcmp(key, "string") == 0) ? "nl_hashmap_key_eq_string" : NULL;
